@@ -162,23 +162,26 @@ theorem oneEach_execCommand (s : State) (now : Nat) (c : Command) (h : OneEachC 
     OneEachC (execCommand s now c).1.reruns := by
   cases c with
   | browse ty ch co =>
-    let x0 : State := { s with reruns := s.reruns.filter (fun r => !isBrowseOf ty r),
-                               queriers := (ty, ch) :: s.queriers.filter (fun q => q.1 != ty) }
-    have hx0 : OneEachC x0.reruns := h.filter _
-    have h0 : OneEachC (queryCacheForService x0 now ty ch).1.reruns :=
-      OneEachC.af (s := x0) hx0 (af_queryCacheForService x0 now ty ch)
+    let x0 : List BList → State := fun cs =>
+      { s with reruns := s.reruns.filter (fun r => !isBrowseOf ty r),
+               queriers := (ty, ch) :: s.queriers.filter (fun q => q.1 != ty), cacheOnly := cs }
+    have hx0 : ∀ cs, OneEachC (x0 cs).reruns := fun _ => h.filter _
+    have h0 : ∀ cs, OneEachC (queryCacheForService (x0 cs) now ty ch).1.reruns := fun cs =>
+      OneEachC.af (s := x0 cs) (hx0 cs) (af_queryCacheForService (x0 cs) now ty ch)
     show OneEachC (execBrowse s now false ty 1 co ch).1.reruns
     unfold execBrowse
-    simp only [Bool.false_eq_true, if_false]
-    split
-    · exact h0
-    · simp only [addRerun]
-      apply h0.append_new _ (false, ty) rfl
+    cases co
+    case true =>
+      simp only [Bool.false_eq_true, if_false, if_true]
+      exact h0 _
+    case false =>
+      simp only [Bool.false_eq_true, if_false, addRerun]
+      apply (h0 _).append_new _ (false, ty) rfl
       -- nothing of `ty` is queued after the purge; the follow-ups continue no schedule
-      obtain ⟨extra, he, hk⟩ := af_queryCacheForService x0 now ty ch
+      obtain ⟨extra, he, hk⟩ := af_queryCacheForService (x0 (s.cacheOnly.filter (· != ty))) now ty ch
       rw [he]
       simp only [List.filter_append]
-      have h1 : x0.reruns.filter (fun x => skey x.cmd == some (false, ty)) = [] := by
+      have h1 : (x0 (s.cacheOnly.filter (· != ty))).reruns.filter (fun x => skey x.cmd == some (false, ty)) = [] := by
         have := Sched.filter_not_self (isBrowseOf ty) s.reruns
         rw [List.filter_eq_nil_iff] at this ⊢
         intro r hr
@@ -414,28 +417,32 @@ theorem key_filter_execCommand (ty : BList) (s : State) (now : Nat) (c : Command
   cases c with
   | browse ty' ch co =>
     have hne : ¬ ty' = ty := by simpa [touchesType] using hc
-    let x0 : State := { s with reruns := s.reruns.filter (fun r => !isBrowseOf ty' r),
-                               queriers := (ty', ch) :: s.queriers.filter (fun q => q.1 != ty') }
-    have h0 : x0.reruns.filter (fun r => skey r.cmd == some (false, ty)) =
+    let x0 : List BList → State := fun cs =>
+      { s with reruns := s.reruns.filter (fun r => !isBrowseOf ty' r),
+               queriers := (ty', ch) :: s.queriers.filter (fun q => q.1 != ty'), cacheOnly := cs }
+    have h0 : ∀ cs, (x0 cs).reruns.filter (fun r => skey r.cmd == some (false, ty)) =
         s.reruns.filter (fun r => skey r.cmd == some (false, ty)) := by
+      intro cs
       apply filter_filter_other
       intro r hr
       rw [isBrowseOf_iff]
       have : skey r.cmd = some (false, ty) := by simpa using hr
       have hne' : ¬ ty = ty' := fun e => hne e.symm
       simp [this, hne']
-    have h1 := key_filter_af (af_queryCacheForService x0 now ty' ch) (false, ty)
+    have h1 := fun cs => key_filter_af (af_queryCacheForService (x0 cs) now ty' ch) (false, ty)
     show (execBrowse s now false ty' 1 co ch).1.reruns.filter _ = _
     unfold execBrowse
-    simp only [Bool.false_eq_true, if_false]
-    split
-    · exact h1.trans h0
-    · simp only [addRerun, List.filter_append]
+    cases co
+    case true =>
+      simp only [Bool.false_eq_true, if_false, if_true]
+      exact (h1 _).trans (h0 _)
+    case false =>
+      simp only [Bool.false_eq_true, if_false, addRerun, List.filter_append]
       have : [({ next := now + 1 * 1000, cmd := RCmd.browse ty' (Sched.nextDelay 1) ch } : Rerun)].filter
           (fun r => skey r.cmd == some (false, ty)) = [] := by
         simp [skey, hne]
       rw [this, List.append_nil]
-      exact h1.trans h0
+      exact (h1 _).trans (h0 _)
   | stopBrowse ty' =>
     have hne : ¬ ty' = ty := by simpa [touchesType] using hc
     simp only [execCommand, execStopBrowse]
@@ -728,20 +735,24 @@ theorem followup_kept_execCommand (s : State) (now : Nat) (c : Command) (r : Rer
     rfl
   cases c with
   | browse ty ch co =>
-    let x0 : State := { s with reruns := s.reruns.filter (fun r => !isBrowseOf ty r),
-                               queriers := (ty, ch) :: s.queriers.filter (fun q => q.1 != ty) }
-    have h0 : r ∈ x0.reruns := List.mem_filter.mpr ⟨hr, by simp [hb ty]⟩
-    obtain ⟨extra, he, _⟩ := af_queryCacheForService x0 now ty ch
-    have h1 : r ∈ (queryCacheForService x0 now ty ch).1.reruns := by
+    let x0 : List BList → State := fun cs =>
+      { s with reruns := s.reruns.filter (fun r => !isBrowseOf ty r),
+               queriers := (ty, ch) :: s.queriers.filter (fun q => q.1 != ty), cacheOnly := cs }
+    have h0 : ∀ cs, r ∈ (x0 cs).reruns := fun _ => List.mem_filter.mpr ⟨hr, by simp [hb ty]⟩
+    have h1 : ∀ cs, r ∈ (queryCacheForService (x0 cs) now ty ch).1.reruns := by
+      intro cs
+      obtain ⟨extra, he, _⟩ := af_queryCacheForService (x0 cs) now ty ch
       rw [he]
-      exact List.mem_append_left _ h0
+      exact List.mem_append_left _ (h0 cs)
     show r ∈ (execBrowse s now false ty 1 co ch).1.reruns
     unfold execBrowse
-    simp only [Bool.false_eq_true, if_false]
-    split
-    · exact h1
-    · simp only [addRerun]
-      exact List.mem_append_left _ h1
+    cases co
+    case true =>
+      simp only [Bool.false_eq_true, if_false, if_true]
+      exact h1 _
+    case false =>
+      simp only [Bool.false_eq_true, if_false, addRerun]
+      exact List.mem_append_left _ (h1 _)
   | stopBrowse ty =>
     simp only [execCommand, execStopBrowse]
     split
